@@ -78,6 +78,7 @@ const (
 	StepRedeliver  = "redeliver"   // re-deliver A recorded requests (stale duplicates)
 	StepApi        = "api"         // Node; Str = call name; A,B = args
 	StepBurst      = "burst"       // A = number of writes issued at once to the leader
+	StepLossy      = "lossy"       // Node <-> Nodes: each message on these links is lost with probability A/1000 (until heal)
 )
 
 // Plan is an ordered list of steps.
